@@ -124,5 +124,6 @@ def c06(tier, seed):
 @register("C14")
 def c14(tier, seed):
     return client_check("C14", tier, seed, "BADKIND",
-                        [("panics", "panic-in-now", "now() panicked inside the physically meaningful range")],
+                        [("panics", "panic-in-now", "now() panicked inside the physically meaningful range"),
+                         ("c_mismatch", "c-client-error-differs", "the C client reports a different outcome (error kind / errno / detail) than the Rust client for the same call")],
                         "wrong error kind / unexpected failure")
